@@ -12,7 +12,10 @@ def shapes_for(tier):
     if tier == 'quick':
         return [('B11a', 'cudd'), ('S11', 'cudd'), ('S11h2', 'cudd'), ('B02', 'cudd'), ('T11b', 'cudd'), ('S11', 'autoref')]
     return [('B11a', 'cudd'), ('S11h2', 'cudd'), ('S11g2', 'cudd'), ('T11b', 'cudd'), ('B11b', 'cudd'), ('S11', 'cudd'),
-            ('B02', 'cudd'), ('S11', 'autoref'), ('B02', 'autoref')]
+            ('B02', 'cudd'), ('S11', 'autoref'),
+            # dd.autoref's variable order makes the exported non-blocking formula of B02 ~60 times slower for z3
+            # (12 s on cudd, 680-950 s and one `unknown` on autoref): that group runs on cudd only
+            ('B02', 'autoref', ('nonblock',))]
 
 
 def replay(payload):
